@@ -86,3 +86,7 @@ pub fn panic_class(msg: &str) -> String {
     }
     out
 }
+
+pub fn hex(b: &[u8]) -> String {
+    b.iter().map(|x| format!("{:02x}", x)).collect()
+}
